@@ -25,6 +25,8 @@ func runC20(w *core.World, r *core.Report) {
 	r.Rule("R4", "blocked stays blocked: TERMINATE test between run and setCode; gate in Run; who may clear TERMINATE")
 	r.Rule("R6", "Finish saves whenever the engine was initialised and has a persister: every success return passes Persister.Save, the initd==false edge or the no-persister edge")
 	r.Rule("R5", "the reset path keeps client flags")
+	r.Rule("R13", "Vm.Render consumes DIRTY on every path, failed renders included (a blocked session stays silent)")
+	r.Rule("R12", "the pre-VM hook answers continue only where TERMINATE was tested unset (its deferred reset must not unblock a terminated session)")
 	r.Rule("R11", "the pending code is consumed when the engine fetches it (C06 R12): a terminated or failed request does not save the lines it was given")
 	r.Rule("R10", "a matched INCMP clears READIN before it moves (a later dead end then terminates instead of going to the catch node)")
 	r.Rule("R9", "engine.Loop finishes (saves) the engine on every exit (C17 R8): an end inside the loop is stored")
@@ -42,6 +44,8 @@ func runC20(w *core.World, r *core.Report) {
 	checkLoopAlwaysFinishes(w, r, "R9")
 	checkMatchClearsReadin(w, r, "R10")
 	checkPendingCodeConsumed(w, r, "R11")
+	checkRenderConsumesDirty(w, r, "R13", fDirty)
+	checkHookContinuesOnlyUnblocked(w, r, "R12", fTerm)
 	run := anchor(w, r, "vm", "(*Vm).Run")
 	roles := resolveEngineRoles(w)
 	labels := roleLabels(w, r)
